@@ -72,6 +72,13 @@ CHECKS.update({
             "Trusted: TLC, the regex engine as exporter of the match relation, the loaded table as its own oracle for offsets (C16 ties it to the sources). LMT (listed with four offsets) is outside the domain.",
             "DESIGN.md 4 C11"),
 })
+CHECKS.update({
+    "C12": ("model_checking",
+            "TLA+ pipelines of the four parsers' localize / convert / strip steps (Timezone.tla) model-checked with TLC against the oracle (same instant, wall clock of the target zone, awareness per setting); real calls over pairs of IANA zones and library offsets validated by TLC (T_C12.tla) with pytz as the source of zone offsets",
+            "TLC checks machine = oracle over an offset grid (whole, half-hour, 45-minute, date-line zones) x boundary wall clocks x own-zone yes/no x TO_TIMEZONE yes/no x 3 awareness settings x 4 parsers. Real calls: every zone of pytz.common_timezones appears at least once as TIMEZONE and as TO_TIMEZONE, further pairs are seeded (quick 20k, thorough 190k calls), library offsets and abbreviations on either side, strings with their own offset, local datetimes 1950..2037 incl. times next to DST transitions, gaps and folds excluded; TLC judges instant, wall clock and awareness of every call and checks that the modelled pipeline reproduces the observed value.",
+            "Trusted: TLC, pytz (reference for zone offsets, per the statement), CPython datetime. Library abbreviations that are also IANA names are not used as settings values; TIMEZONE='local' is not varied.",
+            "DESIGN.md 4 C12"),
+})
 NOT_YET = {}
 
 def main():
